@@ -33,6 +33,11 @@ TRAITS = [
     ("trait_has_same_dimension", 'using U1b = decltype(U1{} * mag<2>()); static_assert(!has_same_dimension(U1{}, U2{}) && !has_same_dimension(U1{}, U1b{}, U2{}) && !has_same_dimension(U2{}, U1{}, U1b{}) && !has_same_dimension(U1{}, U2{}, U1b{}) '
                                  '&& !HasSameDimension<U1, U1b, U1, U2>::value && !HasSameDimension<U1, U1b, U2, U2>::value && !HasSameDimension<U1, U1, U2, U2, U1>::value && has_same_dimension(U1{}, U1b{}, U1{}) && HasSameDimension<U1, U1b, U1b, U1>::value, "vf");'),
 ]
+# an equivalent type from outside the library (std::chrono::duration corresponds to a quantity of time): asked about a quantity of
+# another dimension, the answer is no - in traits and in overload resolution - without a hard error
+CHRONO_TRAIT = ('static_assert(!std::is_convertible<std::chrono::milliseconds, Q1>::value && !std::is_constructible<Q1, std::chrono::duration<double>>::value && !std::is_assignable<Q1 &, std::chrono::hours>::value '
+                '&& !VfHasCommon<std::chrono::seconds, Q1>::value && sizeof(VfPick<Q1>::f(std::chrono::seconds{3})) == sizeof(char), "vf");')
+CHRONO_CONTROL = 'static_assert(std::is_convertible<std::chrono::seconds, au::Quantity<au::Seconds, double>>::value && std::is_constructible<au::Quantity<au::Milli<au::Seconds>, double>, std::chrono::duration<double>>::value, "vf");'
 TRAITS_CONTROL = [
     ("trait_quantity", 'static_assert(std::is_convertible<Q1, Q2>::value && std::is_constructible<Q2, Q1>::value && VfHasCommon<Q1, Q2>::value, "vf");'),
     ("trait_point", 'static_assert(std::is_convertible<P1, P2>::value && std::is_constructible<P2, P1>::value, "vf");'),
@@ -41,9 +46,12 @@ TRAITS_CONTROL = [
 PRE_TMPL = r'''
 #include "au/au.hh"
 %s
+#include <chrono>
 #include <cstdint>
 #include <type_traits>
 #include <utility>
+template <typename Q> struct VfPick { static int f(Q); static char f(std::chrono::nanoseconds); };
+struct VfAcre : decltype(au::squared(au::Feet{}) * au::mag<43560>()) {};
 template <typename A, typename B, typename = void> struct VfHasCommon : std::false_type {};
 template <typename A, typename B> struct VfHasCommon<A, B, decltype(void(std::declval<std::common_type_t<A, B>>()))> : std::true_type {};
 // user-defined units of different dimensions that each carry a non-zero origin (so every origin comparison the library might form is between unlike quantities)
@@ -80,6 +88,7 @@ def run(chk, which="C01"):
     for t, s, e in evs:
         by_dim.setdefault(model.ekey(e.dim), []).append((t, s, e))
     dims = sorted(by_dim)
+    time_dim = model.ekey(leaves["Seconds"][0])
     # mismatching ordered pairs: every unordered pair of distinct dimension classes (one representative each, both orientations) in thorough;
     # a seeded sample in quick
     pairs = []
@@ -119,6 +128,13 @@ def run(chk, which="C01"):
             probes.append({"id": pid, "op": name, "u1": s1, "u2": s2, "expect": "accept", "control": False, "dedup_key": key, "cpp20": False,
                            "text": probe_text(pid, s1, s2, rnd.choice(REPS), rnd.choice(REPS), text)})
             pid += 1
+        if model.ekey(e1.dim) != time_dim:
+            probes.append({"id": pid, "op": "trait_chrono", "u1": s1, "u2": "std::chrono::duration", "expect": "accept", "control": False, "dedup_key": key, "cpp20": False,
+                           "text": probe_text(pid, s1, s2, rnd.choice(REPS), "double", CHRONO_TRAIT)})
+            pid += 1
+    probes.append({"id": pid, "op": "trait_chrono", "u1": "au::Seconds", "u2": "std::chrono::duration", "expect": "accept", "control": True, "dedup_key": ("ctl", "chrono"), "cpp20": False,
+                   "text": probe_text(pid, "au::Seconds", "au::Seconds", "double", "double", CHRONO_CONTROL)})
+    pid += 1
     # units with non-zero origins on both sides of a dimension mismatch (the library's own Celsius/Fahrenheit and user-defined ones)
     origin_pairs = [("au::Celsius", "VfDeck"), ("VfDeck", "au::Fahrenheit"), ("VfDeck", "VfEpoch"), ("VfEpoch", "au::Celsius"), ("VfGauge", "VfDeck"), ("au::Milli<au::Celsius>", "VfGauge"), ("VfEpoch", "au::Meters")]
     for s1, s2 in origin_pairs if tier != "quick" else rnd.sample(origin_pairs, 4):
@@ -144,6 +160,7 @@ def run(chk, which="C01"):
     # controls: same dimension, different unit, policy-permitted reps
     ctrl_dims = [d for d in dims if d != ()]
     rnd.shuffle(ctrl_dims)
+    ctrl_pairs = []
     for d1 in ctrl_dims[: (30 if tier == "quick" else 200)]:
         t1, s1, e1 = rnd.choice(by_dim[d1])
         others = [z for z in by_dim[d1] if z[1] != s1 and model.ekey(z[2].mag) != model.ekey(e1.mag) and not model.has_ordering_tie(("mul", t1, z[0]), leaves)]
@@ -151,6 +168,14 @@ def run(chk, which="C01"):
             t2, s2, e2 = rnd.choice(others)
         else:
             s2 = f"decltype({s1}{{}} * au::mag<1000>())"
+        ctrl_pairs.append((s1, s2))
+    # the same dimension reached through a root of a *named* unit whose own exponents are multiples of the root degree
+    # (library volume / dose / solid-angle units and a user-defined area unit) against a unit that has it directly
+    root_pairs = [("decltype(au::cbrt(au::Liters{}))", "au::Meters"), ("au::Feet", "decltype(au::cbrt(au::USGallons{}))"), ("decltype(au::sqrt(au::Grays{}))", "decltype(au::Meters{} / au::Seconds{})"),
+                  ("decltype(au::sqrt(au::Steradians{}))", "au::Degrees"), ("decltype(au::sqrt(VfAcre{}))", "au::Feet"), ("au::Milli<au::Meters>", "decltype(au::root<3>(au::USPints{}))"),
+                  ("decltype(au::sqrt(au::Grays{}) * au::Seconds{})", "au::Meters")]
+    ctrl_pairs += root_pairs if tier != "quick" else rnd.sample(root_pairs, 4)
+    for s1, s2 in ctrl_pairs:
         stats["control_pairs"] += 1
         key = ("ctl", s1, s2)
         for name, body, kind in OPS:
